@@ -119,6 +119,10 @@ fn continuation<Q: QueueApi>(st: &mut State<Q>, seed: u64, second: Option<(Cb, u
     run(st, &Op::Change { id: 103, ord: -5, k: false }, cn);
     run(st, &Op::IterMut { n: 3, writes: vec![Some(1), None, Some(7)], touch: false, leak: false, via_ref: false }, cn);
     run(st, &Op::Retain { pred: Pred::IdMod { m: 2, mask: 1 } }, cn);
+    // observers and whole-queue operations on the possibly inconsistent queue
+    for op in [Op::Observe, Op::EqCheck, Op::IntoVecCheck, Op::CloneSwap, Op::Shrink, Op::Convert, Op::Serde { via_other: false }] {
+        run(st, &op, cn);
+    }
     match style {
         0 => run(st, &Op::Clear, cn),
         1 => run(st, &Op::Drain { front: 1, back: 1, leak: false }, cn),
@@ -256,7 +260,13 @@ fn gen_fault_op(rng: &mut Rng, kind: Kind, n: usize, ids: u32) -> Op {
             let m = rng.below(2 * n + 3);
             Op::Append { pairs: (0..m).map(|_| (rng.below(ids as usize + 6) as u32, rng.range(0, 4))).collect(), cap: 0 }
         }
-        20 => Op::CloneSwap,
+        20 => {
+            if rng.chance(1, 2) {
+                Op::CloneSwap
+            } else {
+                Op::CloneFrom { pre: (0..rng.below(n + 3)).map(|j| (500 + j as u32, 1)).collect() }
+            }
+        }
         21 => Op::Convert,
         22 => Op::Drain { front: rng.below(n + 1), back: rng.below(2), leak: rng.chance(1, 2) },
         _ => rng.pick(&[Op::EqCheck, Op::SortedCheck, Op::Serde { via_other: false }, Op::IntoIterCheck]).clone(),
